@@ -475,3 +475,21 @@ PROPS["C11"] = {
                     "race builds use -gcflags=-d=checkptr=0 (the checkptr instrumentation -race turns on aborts inside CreateFuncForCodePtr; that is not a data race)"],
     "floors": [("rounds", "steady-calls", 5000), ("rounds", "mocker-apply-restub-reset-cycles", 500)],
 }
+
+PROPS["C19"] = {
+    "prepare": [prep_corpus],
+    "units": [
+        {"name": "scenarios", "pkg": "./zverif/c19", "run": "^TestVerifC19$", "timeout": {"quick": 500, "thorough": 3000},
+         "shards": {"quick": 1, "thorough": 16}},
+    ],
+    "rule": "rapid draws a scenario (corpus function mocked by callback / Return / reset and called in several forms; variadic functions with When/Any/In "
+            "clauses, result sequences and a variadic callback; a struct method by callback and Return; an interface variable with methods mocked by "
+            "Apply and As().Return plus an unmocked slot; a callback that panics with a string / error / int / value whose String() panics / nil "
+            "dereference; a function over hostile values: rings, nil and typed-nil interfaces, errors whose Error() dereferences nil, Stringers that "
+            "panic, structs with unexported pointer/interface/func fields, 200000-element slices, nil **int) and plays it four times: logging off, "
+            "OpenDebug, OpenTrace, off again, and for 1 in 8 in a child process started with GOOM_DEBUG=1. Oracle (metamorphic): the transcripts "
+            "(calls, arguments recorded by callbacks, results, panic classes; values by content) are identical. Every scenario is non-trivial; "
+            "distinct by (kind, target, value codes).",
+    "assumptions": ["self-containing slices/maps reachable through interface{} are not generated (fmt itself overflows the stack on them)"],
+    "floors": [("scenarios", "scenario/hostile", 30), ("scenarios", "scenario/iface", 15), ("scenarios", "transcripts-with-a-panic", 20), ("scenarios", "compared-with-GOOM_DEBUG-child", 5)],
+}
